@@ -93,6 +93,7 @@ def run(ctx):
     bound_compare_rule(ctx, prog)
     folded_filter_rule(ctx, prog)
     bound_arithmetic_rule(ctx, prog)
+    conservative_seek_rule(ctx, prog)
 
 
 def mask_rule(ctx, prog):
@@ -278,3 +279,38 @@ def bound_arithmetic_rule(ctx, prog):
                             'range selects rows the predicate excludes (`a > 2147483647` returns the i32::MAX row)')
     ctx.ob(R7, 'bounds·no-saturating-arithmetic', True, f'{n} functions that take a value out of a Bound examined', nontrivial=False)
     ctx.floor(R7, n, 3, 'functions that take a value out of a Bound')
+
+
+def conservative_seek_rule(ctx, prog):
+    """C13-R8: the seek may start too early, never too late"""
+    R8 = 'C13-R8'
+    ctx.rule(R8, 'the seek to the start row is only an optimisation on top of the mask, so it must be conservative also when equal keys '
+                 'straddle a block boundary (uniqueness of a PRIMARY KEY is not enforced): DiskRowset::start_rowid stops at the first '
+                 'block whose first key is >= the start key (non-strict), i.e. it starts from the last block that begins BELOW the key')
+    b = prog.body(START_ROWID)
+    if not ctx.anchor(R8, START_ROWID, b is not None):
+        return
+    ctx.functions_analysed.add(b.name)
+    dec = {c.dest['l'] for c in b.calls if (c.fn or '').endswith('PrimitiveFixedWidthEncode::decode')}
+    key = {st['lhs']['l'] for _, st in b.stmts() if st['s'] == 'assign' and any('as:Int32' in pl['p'] for pl in operand_places(st['rv']))}
+    cmps = []
+    for bb, st in b.stmts():
+        rv = st.get('rv', {}) if st['s'] == 'assign' else {}
+        if rv.get('rv') == 'binop' and rv['op'] in ('Lt', 'Le', 'Gt', 'Ge') and rv.get('ty') == 'i32':
+            ops = operand_places(rv)
+            if len(ops) == 2:
+                l_first = bool(dec & origin_locals(b, ops[0]['l'], depth=4))
+                r_first = bool(dec & origin_locals(b, ops[1]['l'], depth=4))
+                l_key = bool(key & origin_locals(b, ops[0]['l'], depth=4))
+                r_key = bool(key & origin_locals(b, ops[1]['l'], depth=4))
+                if l_first and r_key:
+                    cmps.append((bb, rv['op'], 'first?key'))
+                elif l_key and r_first:
+                    cmps.append((bb, {'Lt': 'Gt', 'Le': 'Ge', 'Gt': 'Lt', 'Ge': 'Le'}[rv['op']], 'first?key'))
+    if ctx.anchor(R8, 'start_rowid: comparison of a block\'s first key with the start key', cmps):
+        for bb, op, _ in cmps:
+            ctx.ob(R8, 'start_rowid·stops-at-first-key>=start', op == 'Ge',
+                   f'block {bb}: the loop leaves on `first_key {"<>"[0] if False else {"Ge": ">=", "Gt": ">", "Le": "<=", "Lt": "<"}[op]} start_key`',
+                   [site(b, bb)],
+                   what='start_rowid skips to the last block whose first key is <= the start key: when equal keys straddle a block boundary '
+                        'the rows at the end of the previous block are lost (`a >= 27` returns 33 of 34 rows)')
